@@ -12,7 +12,8 @@ PROP = "C09"
 ENGINE = "rank"
 HARNESS = "h_rank"
 FLAVOUR = "asan"
-RULE = ("per plugin: 1..7 siblings at depth 1 (raw protection) or 2 (protection normalised by the parent), equal or "
+RULE = ("per plugin: 1..7 siblings at depth 1 (raw protection), 2 (protection normalised by the parent) or 3 (the parent's own share "
+        "normalised by an over-committed grandparent level), equal or "
         "mixed preference xattrs, optional non-targeted siblings; sizes from {0..20, MiB..GiB, 2^31..2^40, 2^53..2^62} with "
         "the sibling total < 2^63, forced ties and values placed exactly on / one byte around every threshold; "
         "size_threshold 0..100 (+ >100), percentile 0..99, min_growth_ratio integral and fractional, 1..5 tick usage "
@@ -93,7 +94,7 @@ def base(rng, plugin, n=None):
     n = n or rng.choice([1, 2, 2, 3, 3, 4, 5, 7])
     names = rng.sample(NAMES, n)
     ps = prefs(rng, n)
-    sc = {"plugin": plugin, "args": {}, "depth": rng.choice([1, 1, 2]), "nticks": 1,
+    sc = {"plugin": plugin, "args": {}, "depth": rng.choice([1, 1, 2, 3]), "nticks": 1,
           "sibs": [{"name": names[i], "pref": ps[i], "ticks": [{}]} for i in range(n)]}
     if n >= 3 and rng.random() < 0.15:
         sc["sibs"][rng.randrange(n)]["target"] = False
@@ -102,7 +103,7 @@ def base(rng, plugin, n=None):
 
 def finish_mem(rng, sc):
     """parent files for depth 2 (after the siblings' usages are known)"""
-    if sc["depth"] == 2:
+    if sc["depth"] >= 2:
         par = []
         for t in range(sc["nticks"]):
             tot = 0
@@ -115,6 +116,23 @@ def finish_mem(rng, sc):
                 lo = str(cur // rng.choice([2, 3, 4]))
             par.append({"cur": str(cur), "min": mn, "low": lo})
         sc["parent"] = par
+    if sc["depth"] == 3:
+        # grandparent g with children w (the parent) and u (an uncle with a claim of its own): g's level is over-committed
+        # in about half of the cases, so the parent receives less protection than it claims (P(parent) < R(parent))
+        gp, un = [], []
+        for t in range(sc["nticks"]):
+            pc = int(sc["parent"][t]["cur"])
+            ucur = rng.choice([pc, pc // 2 + 4096, 1 << 20, 1 << 30])
+            umn, ulo = prot_fields(rng, ucur)
+            if rng.random() < 0.6:
+                ulo = str(ucur // rng.choice([1, 2, 3]))
+            un.append({"cur": str(ucur), "min": umn, "low": ulo})
+            gcur = min(pc + ucur + rng.choice([0, 4096]), (1 << 63) - 1)
+            gmn, glo = prot_fields(rng, gcur)
+            if rng.random() < 0.6:
+                glo = str(gcur // rng.choice([2, 4, 8, 16]))
+            gp.append({"cur": str(gcur), "min": gmn, "low": glo})
+        sc["gparent"], sc["uncle"] = gp, un
     return sc
 
 
@@ -613,6 +631,11 @@ def shrink_candidates(s):
     if len(sibs) > 1:
         for i in range(len(sibs)):
             yield dict(s, sibs=sibs[:i] + sibs[i + 1:])
+    if s.get("depth") == 3:
+        c = dict(s, depth=2)
+        c.pop("gparent", None)
+        c.pop("uncle", None)
+        yield c
     if s.get("depth") == 2:
         c = dict(s, depth=1)
         c.pop("parent", None)
